@@ -1,7 +1,8 @@
 #!/bin/bash
 # tools/regress_seeded.sh [jobs] : applies every archived seeded change (in isolation, see try_mutant.sh) and runs
 # the quick check of its property; prints one line per change. Every line should say exit=1 (caught), except the two
+# (max_hits = largest number of cases behind one violation signature: a catch with very few hits is fragile.)
 # changes that later repairs of /repo mask (C12-subword-bound..., C12b-...; their meta.json says so).
 J=${1:-3}
 cd /verif
-ls seeded | xargs -P $J -I{} sh -c 'id={}; prop=$(python3 -c "import json;print(json.load(open(\"seeded/$id/meta.json\"))[\"property\"])"); out=$(tools/try_mutant.sh seeded/$id/patch.diff $prop 2>&1 | grep "^== "); echo "$id $out"'
+ls seeded | xargs -P $J -I{} sh -c 'id={}; prop=$(python3 -c "import json;print(json.load(open(\"seeded/$id/meta.json\"))[\"property\"])"); full=$(tools/try_mutant.sh seeded/$id/patch.diff $prop 2>&1); out=$(echo "$full" | grep "^== "); hits=$(echo "$full" | grep -o "count=[0-9]*" | cut -d= -f2 | sort -n | tail -1); echo "$id $out max_hits=${hits:-0}"'
